@@ -221,19 +221,39 @@ InitSigs ==
                                                         ELSE IF f.sigs[k][i] = "STRING_LIST" THEN "STRING" ELSE f.sigs[k][i]],
                   ret |-> f.ret, extra |-> f.extra, scopes |-> << HomeScope(f) >>, allowed |-> FALSE]
 
-\* implicit conversion of an argument: passing a value to a STRING parameter follows the assignment rule
-\* STRING = value (a variable of another type converts, a literal does not - except BOOL)
-ConvTypes == {"INTEGER", "FLOAT", "BOOL", "RTIME", "TIME", "IP"}
+\* arguments: every parameter position that takes a value (not an identifier: ID, TABLE) is called with an argument
+\* of EVERY type in every form.  What a parameter accepts: its own type; a STRING parameter follows the assignment
+\* rule STRING = value (a variable of another type converts, a literal does not - except BOOL); the time and address
+\* types also take a STRING (a literal written in their notation).
+ValueParams == {"STRING", "STRING_LIST", "INTEGER", "FLOAT", "BOOL", "RTIME", "TIME", "IP", "BACKEND", "ACL"}
+\* (a BACKEND variable also converts to a STRING argument - linter and simulator agree, reviewed once; the
+\* members of a variadic STRING list take no conversion at all)
+ArgOK(p, rt, form) ==
+  CASE p = "STRING"      -> AssignOK("=", "STRING", rt, form) \/ (rt = "BACKEND" /\ form # "literal")
+    [] p = "STRING_LIST" -> N(rt) = "STRING"
+    [] p = "TIME"        -> N(rt) \in {"TIME", "STRING"}
+    [] p = "RTIME"       -> N(rt) \in {"RTIME", "TIME", "STRING"}
+    [] p = "IP"          -> N(rt) \in {"IP", "STRING"}
+    [] OTHER             -> N(rt) = p
 \* parameters that are regular expression patterns must be string literals whatever their type says
 PatternParams == {<<"regsub", 2>>, <<"regsuball", 2>>}
 InitConv ==
   \E f \in {g \in FnTable : g.on \cap Scopes # {}} : \E k \in 1..Len(f.sigs) : \E p \in 1..Len(f.sigs[k]) :
-     \E rt \in ConvTypes, form \in Forms :
-        /\ f.sigs[k][p] = "STRING" /\ <<f.name, p>> \notin PatternParams /\ Exists(rt, form)
+     \E rt \in RightTypes, form \in Forms :
+        /\ f.sigs[k][p] \in ValueParams /\ <<f.name, p>> \notin PatternParams /\ Exists(rt, form)
         /\ cell = [kind |-> "fnconv", name |-> f.name,
                    sig |-> [i \in 1..Len(f.sigs[k]) |-> IF f.sigs[k][i] = "STRING_LIST" THEN "STRING" ELSE f.sigs[k][i]],
-                   pos |-> p, rt |-> rt, form |-> form, ret |-> f.ret, extra |-> f.extra,
-                   scopes |-> << HomeScope(f) >>, allowed |-> AssignOK("=", "STRING", rt, form)]
+                   pos |-> p, ptype |-> f.sigs[k][p], rt |-> rt, form |-> form, ret |-> f.ret, extra |-> f.extra,
+                   scopes |-> << HomeScope(f) >>, allowed |-> ArgOK(f.sigs[k][p], rt, form)]
+
+\* dynamic families (backend.<name>.*, director.<name>.*, ratecounter.<name>.*): the rows with %any% are the only
+\* names there are - a name with a suffix no row lists, or of an object that is not declared, is undefined.
+\* DynProbes is generated next to VarTable: for every such row one probe with the last segment replaced and one
+\* that is to be read for an undeclared object.
+ASSUME \A d \in DynProbes : d.how = "badsuffix" => ~ \E v \in VarTable : v.name = d.name
+InitDyn == \E d \in DynProbes :
+              cell = [kind |-> "dyn", name |-> d.name, base |-> d.base, how |-> d.how, access |-> "get", get |-> d.get,
+                      scopes |-> << d.scope >>, allowed |-> FALSE]
 
 InitStmts == \/ \E s \in Stmts, S \in ScopeSets :
                   cell = [kind |-> "stmt", stmt |-> s, action |-> "", scopes |-> SeqOf(S), allowed |-> StmtAllowed(s, S)]
@@ -247,7 +267,8 @@ Init ==
     [] Mode = "stmts" -> InitStmts
     [] Mode = "sigs"  -> InitSigs
     [] Mode = "conv"  -> InitConv
-    [] Mode = "all"   -> InitOps \/ InitVars \/ InitFns \/ InitSigs \/ InitConv \/ InitStmts
+    [] Mode = "dyn"   -> InitDyn
+    [] Mode = "all"   -> InitOps \/ InitVars \/ InitFns \/ InitSigs \/ InitConv \/ InitDyn \/ InitStmts
 
 Next == FALSE /\ UNCHANGED vars
 Spec == Init /\ [][Next]_vars
